@@ -22,8 +22,8 @@ T = {
  'C09': (MC, 'conn-sched', "Callback order of harness-supplied OnPrepare/OnConnect/OnRequest/OnDisconnect/close callbacks under all scheduler interleavings of accept, first data, OnConnect duration and peer close; traces validated against ConnObs.tla ordering rules and exactly-one OnDisconnect at quiescence.", "as C05", "as C05"),
  'C10': (MC, 'slot-sched', "Slot/descriptor reuse: two or three real connections on one manual poller under the controlled scheduler (fetch and dispatch are separate steps; close, stale calls, reopen at any point, free list drained); traces validated against SlotObs.tla (single owner, no reassignment while fetched events are pending, bystander sees exactly its bytes, is never torn down by another's event, stays usable). Stale calls after a completed close with guaranteed slot reuse are enumerated by the C12 table.",
          "as C05", "TLA+ observable spec (SlotObs) + TLC trace validation under a controlled scheduler"),
- 'C11': (FE, 'poll-table', "The finite space of event flags x kernel-side descriptor state x pending output x injection way x transport is enumerated by TLC from PollerVectors.tla; every vector is executed through the real defaultPoll.handler (kernel-reported and synthesised events) with a recording FDOperator and the callback sequence is validated against PollerObs.tla; Close/Trigger on a running Wait loop are checked.",
-         "Trusted: TLC, Linux epoll/socket behaviour, the recording operator. Only the epoll poller is built here (kqueue out of reach).", "TLA+ decision table (PollerObs) enumerated by TLC + trace validation of the real handler's callbacks"),
+ 'C11': (FE, 'poll-table', "The finite space of event flags x kernel-side descriptor state x pending output x injection way x transport is enumerated by TLC from PollerVectors.tla; every vector is executed through the real defaultPoll.handler (kernel-reported and synthesised events) with a recording FDOperator and the callback sequence is validated against PollerObs.tla. The reactor loop as a whole (Wait, Trigger, Close, eventfd, level-/edge-triggered readiness, event-array growth) is the implementation-shaped PollLoop.tla, model-checked exhaustively; counterexample schedules of modelled deviations, TLC-simulated, random, PCT and single-stall schedules run on the real Wait loop under the controlled scheduler (scaled array), stock-size batches around 128/256/512 with edge-triggered registrations and trigger storms run free; all are validated against PollLoopObs.tla and, for conformance, replayed in PollLoop.tla (TracePLImpl).",
+         "Trusted: TLC, Linux epoll/socket behaviour, the recording operator. Only the epoll poller is built here (kqueue out of reach).", "TLA+ decision table (PollerObs) enumerated by TLC + trace validation of the real handler's callbacks; implementation-shaped PollLoop.tla (TLC exhaustive) with schedule replay, trace validation (PollLoopObs) and conformance on the real Wait loop"),
  'C12': (FE, 'after-close', "The decision table AfterClose.tla (method x close mode x buffered input x need x repetition/slot reuse x timer history) is enumerated by TLC; every cell is executed on a real connection whose close has completed (manual poller), under recover and a 2 s watchdog, and judged by TLC with Allowed(); Close racing blocked flushes/reads is covered by controlled-scheduler scenarios (C12.* rules of ConnObs).",
          "Trusted: TLC, manual poller, watchdog as 'never blocks'.", "TLA+ decision table (AfterClose) enumerated by TLC + trace validation; controlled scheduler for racing closes"),
  'C15': (MC, 'fd-table', "Concurrent lifecycles of listeners, event loops, dials (ok/refused/timed out/unix), NewFDConnection (incl. failed registration), Detach, pollers (incl. descriptor exhaustion) with a foreign descriptor-churn goroutine; every open/close audit event is validated by TLC against FdTable.tla, /proc/self/fd is compared before/after, foreign descriptors are verified by inode.",
@@ -58,7 +58,7 @@ engines = [
  {'name': 'bytequeue-replay', 'path': 'lib/buf.py', 'serves_properties': ['C01', 'C02', 'C03'], 'kind_free_text': 'TLC -simulate behaviours of spec/ByteQueue.tla replayed in-package with an instrumented mcache'},
  {'name': 'conn-sched', 'path': 'lib/conn.py', 'serves_properties': ['C04', 'C05', 'C06', 'C07', 'C08', 'C09'], 'kind_free_text': 'controlled scheduler + manual poller; traces judged by spec/ConnObs.tla (and StreamObs for free-running sessions)'},
  {'name': 'slot-sched', 'path': 'lib/slot.py', 'serves_properties': ['C10'], 'kind_free_text': 'multi-connection scenarios under the controlled scheduler judged by spec/SlotObs.tla'},
- {'name': 'poll-table', 'path': 'lib/polltab.py', 'serves_properties': ['C11'], 'kind_free_text': 'TLC-enumerated vectors through the real poller handler'},
+ {'name': 'poll-table', 'path': 'lib/polltab.py', 'serves_properties': ['C11'], 'kind_free_text': 'TLC-enumerated vectors through the real poller handler; PollLoop.tla schedules and free runs on the real Wait loop (lib/ploop.py)'},
  {'name': 'after-close', 'path': 'lib/after.py', 'serves_properties': ['C12'], 'kind_free_text': 'TLC-enumerated after-close table on real connections'},
  {'name': 'fd-table', 'path': 'lib/fdt.py', 'serves_properties': ['C15'], 'kind_free_text': 'descriptor audit traces vs spec/FdTable.tla'},
  {'name': 'adapters-replay', 'path': 'lib/adapt.py', 'serves_properties': ['C16'], 'kind_free_text': 'TLC -simulate behaviours of spec/Adapters.tla replayed with scripted io doubles'},
